@@ -266,13 +266,23 @@ def build(mir, cube):
                     'manifest_checksum_usable': ev(m, manifest_ck_ok) if (reg or jsr) else True}
         def decode(self, m):
             seen = [{'cache_setting': CS[ev(m, c[3])], 'checksum': ev(m, c[4])} for c in calls if ev(m, c[0])]
-            if jsr and not ev(m, manifest_ck_ok): return {'calls': seen, 'result': 'err:Load:Jsr' if ev(m, z3.And(slots_after.present[0], slots_after.vals[0].tag == en['ModuleSlot'].index('Err'))) else 'absent'}
+            if jsr and not ev(m, manifest_ck_ok): return {'calls': seen, 'result': 'err:Load:Jsr' if ev(m, z3.And(slots_after.present[0], slots_after.vals[0].tag == en['ModuleSlot'].index('Err'))) else 'absent', 'err_has_referrer': ev(m, has_range)}
             if ev(m, is_err):
                 k_ = MEK[ev(m, errk.tag)]; d = k_
                 if k_ == 'Load' and isinstance(mle, EnumV):
                     d += ':' + MLE[ev(m, mle.tag)]
-                return {'calls': seen, 'result': 'err:' + d}
-            return {'calls': seen, 'result': 'module' if ev(m, okModule) else 'redirect' if ev(m, okRedirect) else 'external'}
+                ref = None
+                for c_, rf in err_field(1):
+                    if ev(m, c_) and isinstance(rf, EnumV): ref = ev(m, rf.tag) == 1
+                return {'calls': seen, 'result': 'err:' + d, 'err_has_referrer': ref}
+            return {'calls': seen, 'result': 'module' if ev(m, okModule) else 'redirect' if ev(m, okRedirect) else 'external', 'err_has_referrer': None}
+    def err_field(i):
+        # field i (0 = specifier, 1 = maybe_referrer) of the Load / Missing error the result carries
+        out = []
+        for kname in ('Load', 'Missing'):
+            fs = errk.vars.get(MEK.index(kname)) if errk is not None else None
+            if fs is not None and len(fs.f) > i and fs.f[i] is not None: out.append((errk.tag == MEK.index(kname), fs.f[i]))
+        return out
     # natively rebuildable through a real build with a scripted loader: an ordinary https module (lockfile checksum or none), an https URL into
     # the registry (version manifest served or not, listing the file or not, usable checksum or not), or a file of a jsr: package (embedded
     # version info, manifest checksum); first hop, default redirect limit, static import
@@ -282,6 +292,25 @@ def build(mir, cube):
     if jsr: real += [has_locker, z3.Not(locker_has)]
     kw = dict(ops=[Op()], world=W(), realizable=real)
     if cube.get('op_only'): return eng, W(), [], [Query('op', FALSE, **kw)]
+    if cube.get('c03'):
+        # C03 reading of the same execution: every loader / manifest / parse outcome at every await yields a definite response or error,
+        # without panicking, and every error names the requested specifier (the package for a failed manifest load) with the referrer
+        bad_spec = Or(z3.And(is_err, c, z3.Not(z3.Or(sp.id == 0, z3.And(sp.id == 2, has_vfut, z3.Not(vfut_ok))))) for c, sp in err_field(0) if isinstance(sp, UrlV))
+        bad_ref = Or(z3.And(is_err, c, rf.is_variant(1) != has_range) for c, rf in err_field(1) if isinstance(rf, EnumV))
+        named = Or(c for c, _ in err_field(0))
+        answered = lambda name: z3.And(g1, A(r0, name))
+        c03 = [Query('no-panic', Or(g for _, g in eng.panics)), Query('every-outcome-is-a-definite-response-or-error', z3.Not(z3.And(ready_, z3.Or(is_ok, is_err)))),
+               Query('every-error-names-the-requested-specifier', bad_spec), Query('every-error-carries-the-referrer-of-the-request', bad_ref, **kw),
+               Query('errors-are-load-missing-or-parse-errors', z3.And(is_err, z3.Not(z3.Or(named, errk.tag == MEK.index('Parse')))) if errk is not None else z3.BoolVal(False)),
+               Query('not-found-becomes-a-missing-error', z3.And(answered('NotFound'), z3.Not(err_is('Missing'))), **kw),
+               Query('a-loader-failure-becomes-a-load-error', z3.And(answered('OtherError'), z3.Not(err_is('Load', 'Loader'))), **kw),
+               Query('a-delivered-module-or-cached-asset-becomes-a-response', z3.And(answered('Module'), parse_ok, z3.Not(okModule if not cube['asset'] else okExternal)), **kw),
+               Query('an-external-answer-becomes-a-response', z3.And(answered('External'), z3.Not(okExternal)), **kw),
+               Query('a-failed-manifest-step-is-an-error', z3.And(pre_fail, z3.Not(is_err))),
+               Query('witness-missing', z3.And(answered('NotFound'), err_is('Missing')), expect='sat', kind='witness', **kw),
+               Query('witness-loader-error', z3.And(answered('OtherError'), is_err), expect='sat', kind='witness', **kw)]
+        for fname_ in sorted({f for f, _ in eng.exceeded}): c03.append(Query('unwinding:' + fname_.split('>::')[-1], Or(g for f, g in eng.exceeded if f == fname_), kind='unwind'))
+        return eng, W(), list(sym.cons), c03
     if jsr:
         if cube.get('info') and not cube['asset']: kw = {}      # embedded module information (moduleGraph2) is not rebuilt by the native replay: that cube is decided by the solver alone
         SLOT = en['ModuleSlot']; sv = slots_after.vals[0]
@@ -458,6 +487,28 @@ def build_visit(mir, cube):
     SL = en['ModuleSlot']
     qs = [Query('no-panic', Or(g for _, g in eng.panics))]
     for fname_ in sorted({f for f, _ in eng.exceeded}): qs.append(Query('unwinding:' + fname_.split('>::')[-1], Or(g for f, g in eng.exceeded if f == fname_), kind='unwind'))
+    if cube.get('c03'):
+        pv = post.vals[0]
+        settled = z3.And(post.present[0], pv.tag != SL.index('Pending')) if isinstance(pv, EnumV) else z3.BoolVal(False)
+        if kind in ('Module', 'External'):
+            class VW3:
+                has_fc = True
+                def to_json(self, m): return {'positions': True}
+            class OpSettle:
+                # replayed through a real build: a module import (Module answer) or a `type: text` asset import (External answer) served at once
+                def op_json(self, m):
+                    return {'op': 'try_load', 'asset': kind == 'External', 'checksum_known': ev(m, locker_has), 'answers': ['Module', 'Module'], 'parse_ok': True, 'in_dynamic_branch': False,
+                            'redirect_count': 0, 'max_redirects': 10, 'route': 'plain', 'manifest_load_ok': True, 'manifest_covers_file': True, 'manifest_checksum_usable': True}
+                def decode(self, m):
+                    res_ = ('external' if kind == 'External' else 'module') if ev(m, settled) else 'absent'
+                    return {'calls': [{'cache_setting': 'Use', 'checksum': ev(m, locker_has)}], 'result': res_, 'err_has_referrer': None}
+            real3 = [pre_present, pre_pending, z3.Not(has_vi), z3.Not(has_pending_load), has_locker, scheme == SCHEMES.index('https'), z3.Not(is_root), z3.Not(in_dyn), z3.Not(was_dyn_root),
+                     z3.And(mclass == MSI.index('Js'), mt == MT.index('TypeScript')), is_asset == (kind == 'External')]
+            qs.append(Query('the-answered-specifier-is-settled-never-left-pending', z3.Not(settled), ops=[OpSettle()], world=VW3(), realizable=real3))
+            qs.append(Query('witness-settled', settled, expect='sat', kind='witness', ops=[OpSettle()], world=VW3(), realizable=real3))
+        else:
+            qs.append(Query('a-redirect-answer-is-handed-back-to-the-load-step-exactly-once', z3.Or(z3.BoolVal(len(reloads) != 1), z3.Not(Or(g for g, *_ in reloads)))))
+        return eng, (VW3() if kind in ('Module', 'External') else None), list(sym.cons), qs
     wrote = Or(g for g, _, _ in lock_writes)
     class VW:
         has_fc = True
